@@ -35,3 +35,16 @@ package common
 //@   assert at encoding/asn1.Marshal marker: issig ==> $0.([]any)[0] is bool && $0.([]any)[0].(bool)
 //@   assert at encoding/asn1.Marshal length: ismathbig($0.([]any)[b2i(issig)]) && mbval($0.([]any)[b2i(issig)]) == len(values)
 //@   assert at encoding/asn1.Marshal elements: forall j in 0..len(values) :: ismathbig($0.([]any)[j + 1 + b2i(issig)]) && ipay($0.([]any)[j + 1 + b2i(issig)]) == ref(values[j])
+
+//@ # ---- CL signatures (C05) ----
+//@ # the message actually signed: values longer than the message length are replaced by their SHA-256 hash
+//@ fold represent(bases, exps, modulus, maxlen, i) := pow(val(bases[i]), ite(bitlen(val(exps[i])) > maxlen, os2ip(sha256(i2osp(abs(val(exps[i]))))), val(exps[i])), val(modulus)) op mulmod val(modulus)
+
+//@ func RepresentToBases
+//@   property C05 C06
+//@   safety
+//@   requires modulus != nil && val(modulus) > 1 && len(exps) <= len(bases) && maxMessageLength <= 65536
+//@   requires forall i in 0..len(exps) :: exps[i] != nil && bases[i] != nil && val(exps[i]) >= 0
+//@   ensures value: result != nil && fresh(result) && val(result) == represent(bases, exps, modulus, maxMessageLength, 0, len(exps))
+//@   modifies nothing
+//@   loop 0 invariant 0 <= $i && $i <= len(exps) && r != nil && fresh(r) && tmp != nil && fresh(tmp) && r != tmp && val(r) == represent(bases, exps, modulus, maxMessageLength, 0, $i)
